@@ -983,6 +983,19 @@ def r_filter_order(ctx: RuleCtx, col: Collector):
 
 
 # ----------------------------------------------------------------------------------------------- overhang clone
+def _canon_value(e: ast.AST) -> str:
+    """text of a set-up value in which constant tuples and lists read the same ((-1, 0) / [-1, 0]: the code only indexes them)"""
+    import copy as _copy
+
+    class L(ast.NodeTransformer):
+        def visit_Tuple(self, n):
+            self.generic_visit(n)
+            if isinstance(n.ctx, ast.Load) and all(isinstance(x, (ast.Constant, ast.List, ast.UnaryOp)) for x in n.elts):
+                return ast.copy_location(ast.List(elts=n.elts, ctx=ast.Load()), n)
+            return n
+    return norm(L().visit(_copy.deepcopy(e)))
+
+
 def _top_assigns(fn: ast.FunctionDef) -> Dict[str, List[str]]:
     """name -> normalised dumps of the values assigned at function-body level (incl. inside top-level for loops)."""
     out: Dict[str, List[str]] = {}
@@ -996,7 +1009,7 @@ def _top_assigns(fn: ast.FunctionDef) -> Dict[str, List[str]]:
                         while isinstance(base, ast.Subscript):
                             base = base.value
                         if isinstance(base, ast.Name):
-                            out.setdefault(base.id, []).append(norm(x) + "=" + norm(st.value))
+                            out.setdefault(base.id, []).append(norm(x) + "=" + _canon_value(st.value))
             elif isinstance(st, ast.For) and not in_while:
                 out.setdefault("<for>" + norm(st.target), []).append(norm(st.iter))
                 visit(st.body, in_while)
@@ -1114,7 +1127,7 @@ def r_clone_overhang(ctx: RuleCtx, col: Collector):
                             f"printed layer(s) keep their unfiltered densities while the sensitivity treats them as filtered")
                 else:
                     raise AnalysisError(f"OverhangFilter: extent of the sweep '{norm(e)}' not recognised")
-            elif len(a) == 2 and a[0] == "1":
+            elif (len(a) == 2 or (len(a) == 3 and a[2] == "1")) and a[0] == "1":
                 col.ok("OverhangFilter", resp.rel, line_of(e), construct, "from the layer above the base upwards")
             elif len(a) >= 1 and a[0] == "0" or len(a) == 1:
                 col.bad("OverhangFilter", resp.rel, line_of(e), construct,
